@@ -86,11 +86,14 @@ func c03(r *core.Run) {
 	r.Rule("N0", "closed queue stays closed: every store of a possibly non-nil value to the work queue outside serve's initialisation happens, within its critical section, after the queue was observed non-nil", 3)
 	r.Rule("N1", "connection fields stable while serving: the connection and in-channel fields are written only by serve's initialisation (a write elsewhere races with publishing entry points and with Serve's subscribe, which passed the started-check)", 2)
 
+	r.Rule("W1", "no callback outlives Shutdown (shared with C01.F1): every callback-kind dynamic call (handlers, With*/query callbacks, queue elements) runs on a worker goroutine - the ones Shutdown's Wait awaits - or synchronously inside such a callback; a timer or foreign goroutine never calls a user callback directly (it would start after Shutdown returned, or while Shutdown drains)", 6)
+
 	a, e := queueEngine(r, "S1")
 	if e == nil {
 		return
 	}
 	root := p.FuncsOfPkg("")
+	c01Funnel(r, "W1", a, root)
 
 	// ---- S1 --------------------------------------------------------------
 	ops, nonAtomic := stateOps(root, a)
